@@ -13,6 +13,7 @@ type Case struct {
 	Shapes []string
 
 	addedDirective bool
+	curDP          string // derive package of the directive whose needs ensure() is closing (inherited by implicit derivations)
 }
 
 type gctx struct {
@@ -195,6 +196,13 @@ func (g *gctx) derive(tcs TCSet, d *Decl, rec bool) {
 		if g.p.findDerive(t, d) == nil && g.p.findOverride(t, namedTarget(d)) == nil {
 			g.p.Derives = append(g.p.Derives, &Derive{TC: t, Decl: d, Recursive: rec})
 		}
+	}
+}
+
+// deriveDP adds one directive that names the derive package dp ("" = the library's).
+func (g *gctx) deriveDP(tc TC, d *Decl, rec bool, dp string) {
+	if g.p.findDerive(tc, d) == nil {
+		g.p.Derives = append(g.p.Derives, &Derive{TC: tc, Decl: d, Recursive: rec, DP: dp})
 	}
 }
 
@@ -561,6 +569,7 @@ func (c *Case) ensure(r *rand.Rand) {
 		for _, p := range c.Pkgs {
 			for i := 0; i < len(p.Derives); i++ {
 				x := p.Derives[i]
+				c.curDP = x.DP
 				if x.Decl.IsStruct {
 					for _, f := range x.Decl.Fields {
 						if x.Decl.Pkg != p && !x.Decl.Value && !f.Public() {
@@ -616,7 +625,11 @@ func (c *Case) ensureType(r *rand.Rand, p *Pkg, tc TC, t *TX, rec bool) {
 		d := t.Decl
 		res := resolveNamed(tc, p, d, rec)
 		add := func(implicit bool) {
-			p.Derives = append(p.Derives, &Derive{TC: tc, Decl: d, Recursive: implicit, Implicit: implicit})
+			dp := ""
+			if implicit {
+				dp = c.curDP
+			}
+			p.Derives = append(p.Derives, &Derive{TC: tc, Decl: d, Recursive: implicit, Implicit: implicit, DP: dp})
 			if !implicit {
 				c.addedDirective = true
 			}
